@@ -335,10 +335,19 @@ func c03RunInjected(rep *kit.Report, scratch string, c c03Case, tmpl *c03InjTemp
 		rec.on, rec.inFlight = true, true
 	}
 	t0 = time.Now()
+	panics0, _ := immutable.VerifC03CompactPanics()
 	err = c03InjApply(v, c.Reorg)
 	rep.Count("ns_inject_reorg", int64(time.Since(t0)))
 	rec.on = false
 	vRec = nil
+	if n, msg := immutable.VerifC03CompactPanics(); n > panics0 {
+		// the product's own assertions fired inside a compaction task (recovered by compact-recovery, which leaves the
+		// old files in place): not a no-op, a defect
+		rep.Eval(1)
+		rep.Count("cases", 1)
+		rep.Violation("compaction_task_panicked", c.key(), msg, c)
+		return true
+	}
 	if err != nil {
 		rep.Violation("op_error", c.key(), fmt.Sprintf("reorg %s: %v", c.Reorg, err), c)
 		return false
